@@ -76,9 +76,16 @@ func VfC14_KnownUnsupported() {
 	p, clients := vfNewProc(nil, "10.0.0.1:7000")
 	idx := nd.Concrete(nd.Choice("cmd", len(vfRefUnsupported)))
 	name := []byte(vfRefUnsupported[idx])
-	for i := range name {
-		if name[i] >= 'a' && name[i] <= 'z' {
-			name[i] -= 32 * (nd.Byte("upper") & 1) // symbolic letter case, no fork
+	if nd.Param("plaincase", 0) == 1 {
+		// all lower or all upper case, concretely: cheap whatever way the code folds the case
+		if nd.Bool("upper-case") {
+			name = vfUpperASCII(name)
+		}
+	} else {
+		for i := range name {
+			if name[i] >= 'a' && name[i] <= 'z' {
+				name[i] -= 32 * (nd.Byte("upper") & 1) // symbolic letter case, no fork
+			}
 		}
 	}
 	raw := newRawRequest(newArray(*newBulkBytes(name), *newBulkString("k"), *newBulkString("v")))
